@@ -156,7 +156,8 @@ pub fn check_build<T: BFlavor>(prop: &'static str, mon: u32, b: &GenericPurlBuil
             if classes.is_empty() {
                 bad!("build-refuses", "build() fails with {:?} although name, type, rule and checksum are fine: {:?}", T::err_text(&e), r);
             } else if classes.len() == 1 && c != classes[0] {
-                bad!("build-wrong-error", "build() fails with {:?}, expected {}", T::err_text(&e), classes[0].name());
+                // C09 says when build() fails, not with which error (C05/C08/C14 do): diagnostic only
+                acc.count("build_error_class_differs_from_expected");
             }
         },
         Ok(p) => {
